@@ -357,7 +357,7 @@ Proof.
 Qed.
 
 (* non-vacuity of M4, glue and typed M5:
-   " * [ opt ]  key:list(;):int" ;  -1.5pt plus 2fil ;  \foo{-12}{ ab }{x,y z}{k=v} with args n:int s:str l:list d:dict *)
+   " * [ opt ]  key:list(;):int" ;  -1.5pt plus 2fil ;  \foo{-12}{ ab }{x,y z}{k=v,b,e=} with args n:int s:str l:list d:dict (b is True, e the empty string) *)
 Ltac tokp :=
   match goal with
   | |- digit_tok _ (Ch ?cat ?c) => exists cat, c; repeat split; auto
@@ -376,9 +376,9 @@ Example C05_nonvacuous_typed :
          mkArg [108] None (Some n_list) None None true; mkArg [100] None (Some n_dict) None None true]
         ([Ch 1 123; Ch 12 45; Ch 12 49; Ch 12 50; Ch 2 125] ++ [Ch 1 123; Ch 10 32; Ch 11 97; Ch 11 98; Ch 10 32; Ch 2 125] ++
          [Ch 1 123; Ch 11 120; Ch 12 44; Ch 11 121; Ch 10 32; Ch 11 122; Ch 2 125] ++
-         [Ch 1 123; Ch 11 107; Ch 12 61; Ch 11 118; Ch 2 125] ++ [Ch 11 119])
+         [Ch 1 123; Ch 11 107; Ch 12 61; Ch 11 118; Ch 12 44; Ch 11 98; Ch 12 44; Ch 11 101; Ch 12 61; Ch 2 125] ++ [Ch 11 119])
         [([110], eq (VInt (-12))); ([115], eq (VStr [97; 98])); ([108], eq (VList [VStr [120]; VStr [121; 32; 122]]));
-         ([100], eq (VDict [(VStr [107], VStr [118])]))]
+         ([100], eq (VDict [(VStr [107], VStr [118]); (VStr [98], VTrue); (VStr [101], VStr [])]))]
         [Ch 11 119].
 Proof.
   split; [|split].
@@ -423,11 +423,11 @@ Proof.
   apply (tcall_cons _ _ _ _ _ _ _
            (c_list (mkArg [108] None (Some n_list) None None true) 0 _ [[Ch 11 120]; [Ch 11 121; Ch 10 32; Ch 11 122]] _
                    eq_refl (or_introl eq_refl) ltac:(discriminate) Hit (del_brace 123 125 (join 44 [[Ch 11 120]; [Ch 11 121; Ch 10 32; Ch 11 122]]) eq_refl))).
-  assert (He : Forall (entry_ok 44) [([Ch 11 107], [Ch 11 118])]).
+  assert (He : Forall (entry_ok 44) [([Ch 11 107], Some [Ch 11 118]); ([Ch 11 98], None); ([Ch 11 101], Some [])]).
   { repeat constructor; discriminate. }
   apply (tcall_cons _ _ _ _ _ _ _
-           (c_dict (mkArg [100] None (Some n_dict) None None true) 0 _ [([Ch 11 107], [Ch 11 118])] _
-                   eq_refl (or_introl eq_refl) ltac:(discriminate) ltac:(discriminate) He (del_brace 123 125 (join_entries 44 [([Ch 11 107], [Ch 11 118])]) eq_refl))).
+           (c_dict (mkArg [100] None (Some n_dict) None None true) 0 _ [([Ch 11 107], Some [Ch 11 118]); ([Ch 11 98], None); ([Ch 11 101], Some [])] _
+                   eq_refl (or_introl eq_refl) ltac:(discriminate) ltac:(discriminate) He (del_brace 123 125 (join_entries 44 [([Ch 11 107], Some [Ch 11 118]); ([Ch 11 98], None); ([Ch 11 101], Some [])]) eq_refl))).
   apply tcall_nil.
 Qed.
 
